@@ -265,3 +265,29 @@ package store
 //@   ensures a_file_opened_under_its_final_name_is_finalized: !old(r.writting) ==> result
 //@   ensures once_finalized_always_finalized: result ==> !r.writting
 //@   ensures still_written_stays: !result ==> r.writting
+
+// ---- closing a snapshot's reader or writer re-enters the snapshot entry (C05) ------------------
+// RdbReader.Close / RdbWriter.Close run their close observers on the calling goroutine
+// (WaitCloser.Close is synchronous); the observers call dataSetRdb.DelReader / DelWriter, which
+// take the entry's lock. sync.RWMutex is not reentrant: whoever closes them must not hold it.
+//   rdbMuxHeld  1 while the current goroutine holds dataSetRdb.mux exclusively
+//@ func RdbReader.Close(self) (err)
+//@   trusted runs the close observer (dataSetRdb.DelReader) on the calling goroutine
+//@   requires the_snapshot_entrys_lock_is_free [C05]: rdbMuxHeld == 0
+//@   modifies heap
+//@ func RdbWriter.Close(self) (err)
+//@   trusted runs the close observer (dataSetRdb.DelWriter) on the calling goroutine
+//@   requires the_snapshot_entrys_lock_is_free [C05]: rdbMuxHeld == 0
+//@   modifies heap
+
+//@ func dataSetRdb.Close
+//@   arith int
+//@   properties C05
+//@   replay store_snapshotResetDeadlock
+//@   ghost var rdbMuxHeld mathint = 0
+//@   requires nonnil: r != nil
+//@   requires not_locked: rdbMuxHeld == 0
+//@   modifies heap, rdbMuxHeld
+//@   set rdbMuxHeld = 1 at call Lock optional
+//@   set rdbMuxHeld = 0 at call Unlock optional
+//@   ensures unlocked: rdbMuxHeld == 0
